@@ -121,6 +121,9 @@ def run_tlc(workdir, module, cfg=None, workers=None, timeout=1800, args=(), env=
     m = re.search(r"Invariant (\S+) is violated", out)
     if m:
         r.violated = m.group(1)
+    m = re.search(r"Temporal property (\S+) was violated", out)
+    if m and not r.violated:
+        r.violated = m.group(1)
     m = re.search(r"(?:Temporal properties were violated|Action property (\S+) is violated)", out)
     if m and not r.violated:
         r.violated = m.group(1) or "temporal"
